@@ -1,6 +1,11 @@
 package listz
 
-import "unsafe"
+import (
+	"math/rand"
+	"unsafe"
+
+	"github.com/welllog/golib/typez"
+)
 
 // Added to a scratch copy of the package by /verif (never to /repo).
 
@@ -33,4 +38,41 @@ func VerifSyncListVar[T any](l *SyncList[T], addr unsafe.Pointer) string {
 		return "tail"
 	}
 	return "next"
+}
+
+// VerifSkipSetRand installs the random source of a skip list (heights become a scripted choice).
+func VerifSkipSetRand[K typez.Ordered, V any](s *SkipList[K, V], r *rand.Rand) {
+	s.rand = r
+}
+
+// VerifSkipHasRand reports whether the list has a random source (a zero value has none).
+func VerifSkipHasRand[K typez.Ordered, V any](s *SkipList[K, V]) bool {
+	return s.rand != nil
+}
+
+// VerifSkipLevels returns the top level and, per level, the keys linked on that level in order.
+func VerifSkipLevels[K typez.Ordered, V any](s *SkipList[K, V]) (int, [][]K) {
+	lists := make([][]K, 0, s.level)
+	for i := 0; i < s.level && i < len(s.head.next); i++ {
+		l := []K{}
+		for n, c := s.head.next[i], 0; n != nil && c < 1<<16; n, c = n.next[i], c+1 {
+			l = append(l, n.key)
+		}
+		lists = append(lists, l)
+	}
+	return s.level, lists
+}
+
+func VerifSkipCmpSetRand[K any, V any](s *SkipListWithCmp[K, V], r *rand.Rand) { s.rand = r }
+
+func VerifSkipCmpLevels[K any, V any](s *SkipListWithCmp[K, V]) (int, [][]K) {
+	lists := make([][]K, 0, s.level)
+	for i := 0; i < s.level && i < len(s.head.next); i++ {
+		l := []K{}
+		for n, c := s.head.next[i], 0; n != nil && c < 1<<16; n, c = n.next[i], c+1 {
+			l = append(l, n.key)
+		}
+		lists = append(lists, l)
+	}
+	return s.level, lists
 }
